@@ -155,6 +155,9 @@ func (g *G) Value() X {
 	case 14:
 		return g.jsonChain(false)
 	case 15:
+		if g.F.Flat {
+			return g.leafValue()
+		}
 		return g.scalarSubquery()
 	case 16:
 		return g.arrayExpr()
@@ -554,6 +557,9 @@ func (g *G) Bool() X {
 	case 23, 24, 25, 26, 27:
 		return g.logical("OR", POr)
 	case 28:
+		if g.F.Flat {
+			return g.leafBool()
+		}
 		if g.chance(50, "existsorq") {
 			return g.exists()
 		}
@@ -651,7 +657,7 @@ func (g *G) in() X {
 	}
 	t = cat(t, g.kw("IN"), sym("("))
 	ie := &ast.InExpression{Expr: l.N, Not: not}
-	if g.chance(35, "insub") {
+	if !g.F.Flat && g.chance(35, "insub") {
 		g.use("in_subquery")
 		qt, qn := g.Query(true)
 		t = cat(t, qt)
